@@ -543,7 +543,7 @@ def _run_hex(ctx):
     if not ctx.quick:
         grids += [(300, 301), (384, 384), (385, 385), (512, 512), (513, 513), (640, 641), (768, 768)]
     excl_classes = ['none', 'centre', 'random', 'all-but-one']
-    total_cases = ctx.pick(320, 16000)
+    total_cases = ctx.pick(320, 13000)
     for k in range(total_cases):
         if not ctx.mine(k):
             ctx.subseed(rng)
@@ -740,7 +740,7 @@ def _run_keystone(ctx):
     grids = [(96, 96), (97, 97), (128, 129), (160, 160), (201, 201), (256, 256), (257, 257)]
     if not ctx.quick:
         grids += [(300, 301), (384, 384), (385, 385), (512, 512), (513, 513)]
-    total_cases = ctx.pick(160, 7000)
+    total_cases = ctx.pick(160, 5500)
     for k in range(total_cases):
         sub = ctx.subseed(rng)
         if not ctx.mine(k):
@@ -1121,7 +1121,7 @@ def _run_opd_histories(ctx):
     rng = ctx.rng('c18-opd-history')
     grids = [(64, 64), (65, 65), (96, 97), (129, 128), (128, 128)] + ([] if ctx.quick else [(200, 201), (256, 256), (257, 257)])
     with driving(ctx, wl='opd-history'):
-        for k in range(ctx.pick(36, 4000)):
+        for k in range(ctx.pick(36, 3200)):
             sub = ctx.subseed(rng)
             if not ctx.mine(k):
                 continue
